@@ -164,6 +164,25 @@ def shapes():
     return [s for s in out if closed(s)]
 
 
+def long_chains():
+    """Large structured CFGs: K two-way branches in sequence at one nesting level (diamonds, and ifs without
+    else), as long functions have them.  Restructuring them takes well under a second; anything that walks
+    every PATH instead of every block does not come back (seeded change C02-r9)."""
+    out = []
+    for k in (26, 40):
+        succ = []
+        for i in range(k):                       # diamond i: 3i -> (3i+1, 3i+2) -> 3i+3
+            succ += [(3 * i + 1, 3 * i + 2), (3 * i + 3,), (3 * i + 3,)]
+        succ.append(())
+        out.append(tuple(succ))
+        succ = []
+        for i in range(k):                       # if without else: 2i -> (2i+1, 2i+2), 2i+1 -> 2i+2
+            succ += [(2 * i + 1, 2 * i + 2), (2 * i + 2,)]
+        succ.append(())
+        out.append(tuple(succ))
+    return [s for s in out if closed(s)]
+
+
 def describe(succ):
     """Shape statistics for the evidence file."""
     n = len(succ)
